@@ -27,13 +27,13 @@ var weights = map[string]int{"encrypt": 9, "decrypt": 5, "open": 2, "close": 3, 
 
 func TestWorld(t *testing.T) {
 	kit.Steps(kit.Pick(40, 60))
-	kit.Check(t, 300, 32000, func(t *rapid.T) { runHistory(t, false) })
+	kit.Check(t, 1500, 48000, func(t *rapid.T) { runHistory(t, false) })
 }
 
 // TestWorldRealFactory cross-checks with the real memguard factory and securememory.InUseCounter.
 func TestWorldRealFactory(t *testing.T) {
 	kit.Steps(30)
-	kit.Check(t, 30, 1600, func(t *rapid.T) { runHistory(t, true) })
+	kit.Check(t, 60, 1600, func(t *rapid.T) { runHistory(t, true) })
 }
 
 type mon struct {
